@@ -127,7 +127,7 @@ type fctx struct {
 	retK   func(c *fctx, vals string) string
 }
 
-var fReserved = map[string]bool{"fuel": true, "rest_": true, "st_": true, "r_": true, "n_": true, "default": true, "some": true, "none": true,
+var fReserved = map[string]bool{"fuel": true, "rest_": true, "st_": true, "r_": true, "n_": true, "fl_": true, "default": true, "some": true, "none": true,
 	"decide": true, "goIdx": true, "goFrom": true, "goTo": true, "goSlice": true, "goSet": true, "goCopy": true, "goCopyAt": true,
 	"goMake": true, "goMake3": true, "goUint": true, "goMapGet": true, "goMapSet": true, "Flow": true, "locationListSlice": true,
 	"stringsIndexByte": true, "locationLessF": true, "locationWithin": true, "locationOverlap": true, "locCheckStrand": true,
@@ -337,7 +337,7 @@ func (c *fctx) conv(v fval, t string) string {
 
 func fwrap(pre []fbind, body string) string {
 	for i := len(pre) - 1; i >= 0; i-- {
-		body = fmt.Sprintf("match %s with\n| none => none\n| some %s =>\n%s", pre[i].expr, pre[i].pat, body)
+		body = fmt.Sprintf("(%s).bind fun %s =>\n%s", pre[i].expr, pre[i].pat, body)
 	}
 	return body
 }
@@ -784,9 +784,9 @@ func (c *fctx) optBool(x ast.Expr) string {
 			l, r := c.optBool(n.X), c.optBool(n.Y)
 			t := c.tmp()
 			if n.Op == token.LAND {
-				return fmt.Sprintf("(match %s with\n| none => none\n| some %s => if (%s = true) then %s else some false)", l, t, t, r)
+				return fmt.Sprintf("(%s.bind fun %s => if (%s = true) then %s else some false)", l, t, t, r)
 			}
-			return fmt.Sprintf("(match %s with\n| none => none\n| some %s => if (%s = true) then some true else %s)", l, t, t, r)
+			return fmt.Sprintf("(%s.bind fun %s => if (%s = true) then some true else %s)", l, t, t, r)
 		}
 	}
 	var pre []fbind
@@ -1063,7 +1063,7 @@ func (c *fctx) assignStmt(n *ast.AssignStmt, rest []ast.Stmt, k func(c *fctx) st
 			old := c.tmp()
 			v := c.conv(vals[i], "loc")
 			c.checkStore(base)
-			inner := fmt.Sprintf("match goIdx %s %s with\n| none => none\n| some %s =>\nmatch goSet %s %s { %s with loc := %s } with\n| none => none\n| some %s =>\n",
+			inner := fmt.Sprintf("(goIdx %s %s).bind fun %s =>\n(goSet %s %s { %s with loc := %s }).bind fun %s =>\n",
 				base, it, old, base, it, old, v, base)
 			return fwrap(pre, fjoin(lets, inner+c.stmts(rest, k)))
 		default:
@@ -1086,7 +1086,7 @@ func (c *fctx) finishStores(lets []string, rest string) string {
 		l := lets[i]
 		if strings.HasPrefix(l, "\x00STORE ") {
 			p := strings.Split(strings.TrimPrefix(l, "\x00STORE "), "\x01")
-			out = fmt.Sprintf("match goSet %s %s %s with\n| none => none\n| some %s =>\n%s", p[0], p[1], p[2], p[0], out)
+			out = fmt.Sprintf("(goSet %s %s %s).bind fun %s =>\n%s", p[0], p[1], p[2], p[0], out)
 		} else {
 			out = l + "\n" + out
 		}
@@ -1464,7 +1464,14 @@ func (c *fctx) ifStmt(n *ast.IfStmt, rest []ast.Stmt, k func(c *fctx) string) st
 	}
 	ite := fmt.Sprintf("if %s then\n  (%s)\nelse\n  (%s)", cond, indent(thenS, "  "), indent(elseS, "  "))
 	if effect {
-		return fwrap(pre, fmt.Sprintf("match (%s) with\n| none => none\n| some %s =>\n%s", ite, ftuple(names), c.stmts(rest, k)))
+		if len(names) == 1 {
+			return fwrap(pre, fmt.Sprintf("(%s).bind fun %s =>\n%s", ite, names[0], c.stmts(rest, k)))
+		}
+		var rebind []string
+		for i, nm := range names {
+			rebind = append(rebind, fmt.Sprintf("let %s : %s := st_%s;", nm, fleanOf(c.vars[nm].typ, c.f), projOf(i, len(names))))
+		}
+		return fwrap(pre, fmt.Sprintf("(%s).bind fun st_ =>\n%s", ite, fjoin(rebind, c.stmts(rest, k))))
 	}
 	return fwrap(pre, fmt.Sprintf("let %s := %s;\n%s", ftuple(names), ite, c.stmts(rest, k)))
 }
@@ -1586,9 +1593,9 @@ func (c *fctx) afterLoop(call string, state []string, returns bool, rest []ast.S
 	cont := fjoin(rebind, c.stmts(rest, k))
 	switch {
 	case c.f.effect && returns:
-		return fmt.Sprintf("match %s with\n| none => none\n| some (.ret r_) => %s\n| some (.next st_) =>\n%s", call, outerRet(c, "r_"), cont)
+		return fmt.Sprintf("(%s).bind fun fl_ =>\nmatch fl_ with\n| .ret r_ => %s\n| .next st_ =>\n%s", call, outerRet(c, "r_"), cont)
 	case c.f.effect:
-		return fmt.Sprintf("match %s with\n| none => none\n| some st_ =>\n%s", call, cont)
+		return fmt.Sprintf("(%s).bind fun st_ =>\n%s", call, cont)
 	case returns:
 		return fmt.Sprintf("match %s with\n| .ret r_ => %s\n| .next st_ =>\n%s", call, outerRet(c, "r_"), cont)
 	}
